@@ -53,6 +53,12 @@ def run(model: RepoModel, rep, tier: str):
     rep.rule("C03.R5", "body attributes name blocks they own: a block-valued attribute receives the id returned by flatten_block "
                        "called with the owning statement's id as parent", 2)
 
+    rep.rule("C03.R6", "no regular expression is built from unescaped text of the analysed program in the language phase (re.error is an "
+                       "unhandled exception there and ends the phase for every file)", 5)
+    from .c08 import check_regex_escape
+    check_regex_escape(model, rep, "C03.R6", only=("events/default_event_handlers/", "lang/", "preparation.py"))
+
+
     # ------------------------------------------------------------------ R1
     aid = gp.methods.get("assign_id")
     key = f"{LA}::GIRProcessing.assign_id::monotone"
@@ -322,6 +328,8 @@ def _t(old, new, count=1):
 
 
 MUTANTS = [
+    ("import-names-unescaped", "events/default_event_handlers/basic.py", lambda src: __import__("sa.mutate", fromlist=["x"]).text_replace(src, "                old_name = re.escape(old_name)\n", ""),
+     "C03.R6"),
     ("assign-id-no-increment", LA, _t("        previous = self.node_id\n        self.node_id += 1\n        return previous", "        previous = self.node_id\n        return previous"), "assign_id"),
     ("gap-too-small", "config/config.py", lambda src: __import__("re").sub(r"(MIN_ID_INTERVAL\s*=\s*)10", r"\g<1>2", src, count=1), "fit into the inter-unit gap"),
     ("wrapper-offset-bigger", BASIC, _t("    main_method_body_id = last_stmt_id + 2", "    main_method_body_id = last_stmt_id + 12"), "fit into the inter-unit gap"),
